@@ -100,7 +100,7 @@ CLAIMED.update({
 CLAIMED.update({
  "C10": dict(category="fault_enumeration", design="DESIGN.md §3 C10",
    technique="runtime monitoring with crash-point enumeration: every prefix of the emitted script is applied to the device model, the real drc is re-run on the dumped hybrid state and its script executed and judged by the engine monitors",
-   text="For seeded pairs of all five device types every prefix length of the command sequence (joined entries split, cuts inside sub-mode blocks) yields a hybrid device state; drc is run again on it with the same target; the tool must accept it, the new script must be executable, reach a state equivalent to the target and compare clean afterwards. quick 400 pairs per type, thorough 3000. A tool crash on a hybrid state counts as "cannot be resumed".",
+   text="For seeded pairs of all five device types every prefix length of the command sequence (joined entries split, cuts inside sub-mode blocks) yields a hybrid device state; drc is run again on it with the same target; the tool must accept it, the new script must be executable, reach a state equivalent to the target and compare clean afterwards. quick 400 pairs per type, thorough 3000. A tool crash on a hybrid state counts as not resumable.",
    note="A crash leaves exactly the first k commands applied; PAN-OS prefixes are candidate-config states; Linux iptables load is atomic."),
  "C14": dict(category="exploration", design="DESIGN.md §3 C14",
    technique="runtime monitoring: step monitor evaluating every packet of a small universe against the bound ACLs (and the routed destinations) after every executed script entry",
